@@ -472,13 +472,15 @@ fn emit_fn(out: &mut Value, req: &Value, sig: &Signature, block: &Block, impl_hd
     }
     // optional nested slice (N11): one inner statement becomes the body
     if let Some(anchor) = req["slice_stmt"].as_str() {
-        match norm::find_stmt(&b, anchor, req["slice_nth"].as_u64().unwrap_or(1) as usize) {
-            Some((st, ctx)) => {
-                let st = match st {
-                    Stmt::Expr(e, None) => Stmt::Expr(e, Some(Default::default())),
-                    other => other,
-                };
-                let mut stmts = vec![st];
+        match norm::find_stmts(&b, anchor, req["slice_nth"].as_u64().unwrap_or(1) as usize, req["slice_until"].as_str()) {
+            Some((sts, ctx)) => {
+                let mut stmts: Vec<Stmt> = sts
+                    .into_iter()
+                    .map(|st| match st {
+                        Stmt::Expr(e, None) => Stmt::Expr(e, Some(Default::default())),
+                        other => other,
+                    })
+                    .collect();
                 // N11 (loop body): `slice_body=1` takes the body of the found `for` statement instead of the statement
                 if req["slice_body"].as_bool().unwrap_or(false) {
                     let body = match &stmts[0] {
